@@ -1,0 +1,19 @@
+//go:build verif
+
+// Contracts for package main, read by the verification-condition generator in /verif (gvc).
+// This file contains comments only; it is compiled only with the build tag "verif" and adds no code.
+package main
+
+// C14: validation accepts only what IsQuadTree accepts, needs matrix 0, and does not panic.
+// Preconditions: a decoded tile matrix set (every matrix has an origin and a positive cell size), a non-empty id
+// list whose deepest level is at most 32, and - in case the shape is accepted - sane magnitudes of matrix 0
+// (see macro indexable, all but its clause about variable widths, which validation itself must establish).
+//@ macro saneRoot(tms, id) = 0 <= id && 1 <= tms.TileMatrices[0].TileWidth && tms.TileMatrices[0].TileWidth <= 1099511627776 && tmLevel(tms, id) <= 32
+//@     && bbOK(tms) && bbMaxX(tms) - bbMinX(tms) >= pow2(tmLevel(tms, id))
+//@ func validateTileMatrixSet
+//@   prelude arith tmsaxis strings
+//@   requires forall(k Int, hasKey(tms.TileMatrices, k) ==> decodedTM(tms.TileMatrices[k]))
+//@   requires len(tileMatrixIDs) > 0
+//@   requires forall(i, 0, len(tileMatrixIDs), saneRoot(tms, tileMatrixIDs[i]))
+//@   ensures[C14] result == nil ==> hasKey(tms.TileMatrices, 0)
+//@   ensures[C14] result == nil ==> forall(k Int, hasKey(tms.TileMatrices, k) ==> perMatrix(tms.TileMatrices[k], k))
